@@ -231,6 +231,19 @@ PROPS["C14"] = dict(
 
 def classify_c01(case, model, why):
     imp = case[1]
+    if case[0].startswith("(posfor"):
+        m = re.match(r"\(posfor \(str([ 0-9]*)\) (\d+)\)", case[0])
+        mi = re.match(r"\(pos (-?\d+) (-?\d+)\)", imp)
+        if m and mi:
+            src = "".join(chr(int(x)) for x in m.group(1).split())
+            l, c = int(mi.group(1)), int(mi.group(2))
+            lines = src.split("\n")
+            if l < 1 or l > len(lines) or c < 1 or c > len(lines[l - 1].encode()) + 1:
+                return dict(kind="failing-input",
+                            why=f"the macro error is positioned at {l}:{c}, beyond the source text")
+        return dict(kind="no-failing-input-found",
+                    why="the position reported for a macro error differs from Position.pos_for at the "
+                        "argument's byte offset: correspondence pos_for <-> SourceInfo::pos_for broken")
     if imp.startswith("(crash"):
         return dict(kind="failing-input", why="compiling this source panicked")
     if imp.startswith("(bad-errors"):
